@@ -157,4 +157,112 @@ theorem written_nonitem (es : List Eff) :
   | cons e es ih =>
     cases e <;> simp [Eff.written, Eff.isItem, List.filter, List.filterMap, ih]
 
+/-- an observation that ignores the structural events sees only the item effects -/
+theorem filterMap_items {β : Type} (g : Eff → Option β) (hg : ∀ e, e.isItem = false → g e = none)
+    (es : List Eff) : es.filterMap g = (es.filter Eff.isItem).filterMap g := by
+  induction es with
+  | nil => rfl
+  | cons e es ih =>
+    cases he : e.isItem with
+    | true => simp [List.filter, List.filterMap, he, ih]
+    | false => simp [List.filter, List.filterMap, he, hg e he, ih]
+
+/-- in every schedule of a structure whose one-worker order has the item effects `L`, an
+    item-only observation sees a permutation of what it sees on `L` -/
+theorem Sched.observe {β : Type} (g : Eff → Option β) (hg : ∀ e, e.isItem = false → g e = none)
+    {t : FJ Eff} {s L : List Eff} (hs : Sched t s) (hL : t.seq.filter Eff.isItem = L) :
+    (s.filterMap g).Perm (L.filterMap g) := by
+  rw [filterMap_items g hg s, ← hL]
+  exact (hs.perm.filter _).filterMap _
+
+theorem resAddr_nonitem : ∀ e : Eff, e.isItem = false → e.resAddr = none := by
+  intro e; cases e <;> simp [Eff.isItem, Eff.resAddr]
+theorem idAddr_nonitem : ∀ e : Eff, e.isItem = false → e.idAddr = none := by
+  intro e; cases e <;> simp [Eff.isItem, Eff.idAddr]
+theorem callOf_nonitem : ∀ e : Eff, e.isItem = false → e.callOf = none := by
+  intro e; cases e <;> simp [Eff.isItem, Eff.callOf]
+theorem written_nonitem' : ∀ e : Eff, e.isItem = false → e.written = none := by
+  intro e; cases e <;> simp [Eff.isItem, Eff.written]
+
+theorem loop_resAddr (p : Params) (n : Nat) :
+    (loop p n).filterMap Eff.resAddr =
+      match p.results with
+      | some r => (List.range n).map fun i => r + i * p.resStride
+      | none => [] := by
+  unfold loop
+  rw [List.filterMap_flatMap]
+  cases hr : p.results with
+  | none =>
+    have : ∀ i, (item p i).filterMap Eff.resAddr = [] := by
+      intro i; unfold item; cases p.ids <;> simp [hr, Eff.resAddr, List.filterMap]
+    simp [this]
+  | some r =>
+    have : ∀ i, (item p i).filterMap Eff.resAddr = [r + i * p.resStride] := by
+      intro i; unfold item; cases p.ids <;> simp [hr, Eff.resAddr, List.filterMap]
+    simp only [this]
+    induction (List.range n) with
+    | nil => rfl
+    | cons x xs ih => simp [List.flatMap_cons, ih]
+
+theorem loop_idAddr (p : Params) (n : Nat) :
+    (loop p n).filterMap Eff.idAddr =
+      match p.ids with
+      | some r => (List.range n).map fun i => r + i * p.idStride
+      | none => [] := by
+  unfold loop
+  rw [List.filterMap_flatMap]
+  cases hr : p.ids with
+  | none =>
+    have : ∀ i, (item p i).filterMap Eff.idAddr = [] := by
+      intro i; unfold item; cases p.results <;> simp [hr, Eff.idAddr, List.filterMap]
+    simp [this]
+  | some r =>
+    have : ∀ i, (item p i).filterMap Eff.idAddr = [r + i * p.idStride] := by
+      intro i; unfold item; cases p.results <;> simp [hr, Eff.idAddr, List.filterMap]
+    simp only [this]
+    induction (List.range n) with
+    | nil => rfl
+    | cons x xs ih => simp [List.flatMap_cons, ih]
+
+theorem loop_callOf (p : Params) (n : Nat) :
+    (loop p n).filterMap Eff.callOf =
+      (List.range n).map fun i => (p.funcs + i * p.funcStride, p.args + i * p.argStride) := by
+  unfold loop
+  rw [List.filterMap_flatMap]
+  have : ∀ i, (item p i).filterMap Eff.callOf =
+      [(p.funcs + i * p.funcStride, p.args + i * p.argStride)] := by
+    intro i; unfold item; cases p.ids <;> cases p.results <;> simp [Eff.callOf, List.filterMap]
+  simp only [this]
+  induction (List.range n) with
+  | nil => rfl
+  | cons x xs ih => simp [List.flatMap_cons, ih]
+
+/-- strided slots with a positive stride are pairwise distinct: each is hit exactly once -/
+theorem count_strided (r stride n i : Nat) (hs : 0 < stride) (hi : i < n) :
+    ((List.range n).map fun j => r + j * stride).count (r + i * stride) = 1 := by
+  have hnd : ((List.range n).map fun j => r + j * stride).Nodup := by
+    apply List.Pairwise.map _ _ List.nodup_range
+    intro a b hab h
+    apply hab
+    have : a * stride = b * stride := by omega
+    exact Nat.eq_of_mul_eq_mul_right hs this
+  rw [hnd.count, if_pos]
+  exact List.mem_map.mpr ⟨i, List.mem_range.mpr hi, rfl⟩
+
+/-- `variousF` in terms of `auxF` -/
+theorem variousF_spec (p : Params) (n fuel : Nat) (t : FJ Eff) (h : variousF p fuel n = some t) :
+    t.seq.filter Eff.isItem = loop p n ∧ t.forks = n - 1 := by
+  unfold variousF at h
+  by_cases hn : n = 0
+  · rw [if_pos hn] at h
+    cases h
+    subst hn
+    simp [FJ.seq, loop, FJ.forks]
+  · rw [if_neg hn] at h
+    obtain ⟨t', ht', hs, hf⟩ := auxF_spec p n 0 n (by omega) (by omega)
+    have := auxF_unique p fuel n 0 n t t' h ht'
+    subst this
+    refine ⟨?_, by simpa using hf⟩
+    rw [hs, items, loop, Nat.sub_zero, List.range_eq_range']
+
 end MythVerif.Bulk
